@@ -135,45 +135,51 @@ class Ctx:
             f.write(r.out)
         self.violations.append(("model:" + module, "model invariant violated", path))
 
-    def drive(self, cfg, cases, env=None, timeout=1200, tolerate_crash=False):
+    def drive(self, cfg, cases, env=None, timeout=1200, max_crashes=25):
+        """Replay cases on the library; a crashing/hanging case is flagged and the
+        remaining cases are replayed in a fresh process (bounded number of times)."""
         exe = L.build(cfg)
         events = cases.replace(".cases", "") + ".%s.events" % cfg
-        rc, out, wall = L.drive(exe, cases, events, timeout=timeout, env=env)
-        nlines = 0
-        crash = None
-        if os.path.exists(events):
-            with open(events) as f:
-                for line in f:
-                    nlines += 1
-                    if line.startswith('{"crash"'):
-                        crash = json.loads(line)
-        log("[drive] %s: rc=%d, %d events, %.1fs" % (os.path.basename(cases), rc, nlines, wall))
-        if rc != 0:
-            # which case was running?  the one after the last complete event
-            rows = L.read_ndjson(cases)
-            done = nlines - (1 if crash else 0)
-            culprit = rows[done] if done < len(rows) else None
-            why = "crash:" + (crash["crash"] if crash else ("rc=%d" % rc))
-            if rc == 124:
-                why = "hang"
-            tail = out[-1500:]
-            if culprit is None:
-                raise Infra("harness failed outside any case rc=%d: %s" % (rc, tail))
-            self.flag(culprit, why + " " + tail.replace("\n", " | ")[:400])
-            # continue with the remaining cases so the rest is still checked
-            rest = rows[done + 1:]
-            if crash:
-                # drop the crash marker line
-                with open(events) as f:
-                    lines = [l for l in f if not l.startswith('{"crash"')]
-                with open(events, "w") as f:
-                    f.writelines(lines)
-            if rest and not tolerate_crash:
-                sub = cases + ".rest"
-                L.write_ndjson(sub, rest)
-                ev2 = self.drive(cfg, sub, env=env, timeout=timeout)
-                with open(events, "a") as f, open(ev2) as g:
-                    shutil.copyfileobj(g, f)
+        rows = L.read_ndjson(cases)
+        todo = cases
+        offset = 0
+        part = 0
+        with open(events, "w") as allev:
+            while True:
+                pev = "%s.part%d" % (events, part)
+                rc, out, wall = L.drive(exe, todo, pev, timeout=timeout, env=env)
+                lines = []
+                crash = None
+                if os.path.exists(pev):
+                    with open(pev) as f:
+                        for line in f:
+                            if line.startswith('{"crash"'):
+                                crash = json.loads(line)
+                            else:
+                                lines.append(line)
+                allev.writelines(lines)
+                log("[drive] %s part %d: rc=%d, %d events, %.1fs" % (os.path.basename(cases), part, rc, len(lines), wall))
+                if rc == 2:
+                    raise Infra("harness usage/parse error: " + out[-800:])
+                if rc == 0:
+                    break
+                done = offset + len(lines)
+                if done >= len(rows):
+                    raise Infra("harness failed outside any case rc=%d: %s" % (rc, out[-800:]))
+                why = "crash:" + (crash["crash"] if crash else ("rc=%d" % rc))
+                if rc == 124:
+                    why = "hang"
+                self.flag(rows[done], why + " " + out[-1500:].replace("\n", " | ")[:400])
+                offset = done + 1
+                part += 1
+                if offset >= len(rows):
+                    break
+                if part > max_crashes:
+                    log("[drive] too many crashing cases; %d cases not replayed" % (len(rows) - offset))
+                    self.notes.append("%d cases not replayed after %d crashes" % (len(rows) - offset, part))
+                    break
+                todo = "%s.rest%d" % (cases, part)
+                L.write_ndjson(todo, rows[offset:])
         return events
 
     def validate(self, module, events, shards=None, cfg=None, env=None, timeout=1800, floor=0.5,
@@ -318,7 +324,7 @@ class Ctx:
 
 def sample_of(e):
     def conv(v, depth=0):
-        if isinstance(v, dict) and "k" in v and "a" in v:
+        if L.is_term(v):
             return L.render(v)
         if isinstance(v, dict):
             return {k: conv(x, depth + 1) for k, x in v.items() if k not in ("_stage",)}
@@ -369,3 +375,56 @@ def c29(ctx):
                 "symbolic relationals; decisive = the specification could order the two values")
     ctx.exhaustive = True
     simple(ctx, "MC_C29", "Trace_C29")
+
+
+@plan("C33")
+def c33(ctx):
+    ctx.rule = ("TLC explores every call history of the sieve state machine (generate, clear, set_clear, "
+                "segment size, iterator new/next/destroy; two iterators) up to the depth bound, checking the "
+                "implementation-shaped model against the abstract contract in every state, and emits every "
+                "maximal history; each is replayed on the real process-global Sieve (segment size set in bits "
+                "through hook H4) and TLC re-runs the specification along the recorded results; seeded random "
+                "histories of length 12-40 go through the same trace specification")
+    depth = 4 if ctx.thorough else 3
+    # negative model: the pre-repair segment end must be refuted (vacuity guard for NoOutOfBounds)
+    ctx.model_check("MC_Sieve", cfg="MC_SieveNeg.cfg", expect_violation=True, env={"OUT": "/dev/null"})
+    cases = ctx.gen("MC_Sieve", cfg="MC_Sieve%d.cfg" % depth, workers=4, heap="8g")
+    # random deeper histories from the harness driver
+    n_rand = 3000 if ctx.thorough else 300
+    rows = L.read_ndjson(cases)
+    base = len(rows)
+    if ctx.replay_rows is None:
+        import random
+        rg = random.Random(ctx.seed)
+        for i in range(n_rand):
+            rows.append({"op": "sieve_random", "seed": rg.randrange(1 << 30), "len": rg.choice([12, 20, 40]),
+                         "maxlimit": rg.choice([60, 200, 450]), "id": base + i + 1, "_stage": "MC_Sieve"})
+        L.write_ndjson(cases, rows)
+    events = ctx.drive("base", cases)
+    bad = ctx.validate("Trace_Sieve", events, shards=6 if ctx.thorough else 4, floor=0.9)
+    ctx.judge(bad, cases)
+    ctx.exhaustive = True
+    ctx.extra["depth_bound"] = depth
+    ctx.extra["random_histories"] = n_rand
+
+
+@plan("C25")
+def c25(ctx):
+    ctx.rule = ("model MC_CSR: from every canonical matrix of the bounded shapes every set(i,c,v) transition "
+                "(TLC checks the transcribed binary search keeps the format canonical and refines the dense "
+                "update; a wrong-search variant must be refuted); every transition is replayed on a real "
+                "CSRMatrix and the logged arrays must equal the specification's; model MC_CSROps: all pairs of "
+                "small dense matrices through from_coo (with duplicates), transpose, conjugate, binop add/sub, "
+                "elementwise product, row/column scaling, diagonal and eq, validated against the dense meaning")
+    ctx.model_check("MC_CSR", cfg="MC_CSR_neg.cfg", expect_violation=True, env={"OUT": "/dev/null"})
+    shapes = ["t1", "t2"] if ctx.thorough else ["q1", "q2"]
+    for sh in shapes:
+        cases = ctx.gen("MC_CSR", stage="set_" + sh, cfg="MC_CSR_%s.cfg" % sh, workers=4, heap="8g")
+        events = ctx.drive("base", cases)
+        bad = ctx.validate("Trace_CSR", events, floor=0.9)
+        ctx.judge(bad, cases)
+    cases = ctx.gen("MC_CSROps", stage="ops")
+    events = ctx.drive("base", cases)
+    bad = ctx.validate("Trace_CSR", events, floor=0.9)
+    ctx.judge(bad, cases)
+    ctx.exhaustive = True
